@@ -35,6 +35,19 @@ var commonAssumptions = []string{
 // All lists the claimed properties.
 var All = []*Prop{
 	{
+		ID:    "C16",
+		Rules: []*core.Rule{rules.InstrImmut, rules.InstrAlias, rules.PrimImmut, rules.Globals, rules.XRuntime},
+		Explanation: "Sharing is race-free iff shared memory is never written after publication or is synchronised. " +
+			"R-INSTRIMMUT: none of the ~260 exec(*vm) methods of types implementing `instruction` stores to memory reached through its receiver (access-path analysis: FieldAddr/IndexAddr/load chains; through pointers, slices, maps), directly or through a statically called function (writes-through-parameter summary, least fixed point). " +
+			"R-INSTRALIAS: Program-owned reference data handed to runtime-owned mutable state is copied first (names maps are shared only on the !extensible edge with a fresh map on the other; regexp literals go through clone(); every clone() returns a fresh allocation on every path). " +
+			"R-PRIMIMMUT: no method of a primitive Value type writes through its receiver, except inside a function that is only ever run by the receiver's own sync.Once. " +
+			"R-GLOBALS: every package-level variable written outside package initialisation is written only under a package-level sync.Once / mutex (or in the audited profiler control API). " +
+			"R-XRUNTIME: ToValue and every valueContainer.toValue compare the object's runtime with the receiving Runtime and panic on mismatch (or route through ToValue).",
+		Technique:  "write-effect analysis over SSA access paths with inter-procedural writes-through summaries; alias obligations with copy/clone idioms; sync.Once discipline; who-checks rule for cross-runtime objects",
+		DesignRef:  "DESIGN.md section 4, C16",
+		NotCovered: "what the compiler puts into instruction fields (e.g. whether `extensible` is computed from the right scope), Go-API paths other than ToValue/valueContainer that accept Values (Callable arguments), races inside dependencies (regexp2, x/text), equality of concurrent and isolated results",
+	},
+	{
 		ID:    "C14",
 		Rules: []*core.Rule{rules.Classifier, rules.Recover, rules.GoError, rules.InterruptSync, rules.UncatchableClose},
 		Explanation: "R-CLASSIFIER: in vm.exceptionFromValue (the single place where a panic payload becomes a script-catchable Exception) no case type accepts an implementer of uncatchableException (go/types assignability over every named type of the package), *Object is matched before Value, the *Object and Value cases store the matched value itself in Exception.val (SSA identity), and unknown payloads yield nil. " +
